@@ -171,9 +171,40 @@ func runC17(c *Ctx) {
 		}
 		return "", "", false
 	}
+	// cmp.Compare(x, y) as a direction: positive iff y < x
+	splitCompare := func(k string) (string, string, bool) {
+		if !strings.HasPrefix(k, "cmp.Compare(") || !strings.HasSuffix(k, ")") {
+			return "", "", false
+		}
+		in, depth := k[len("cmp.Compare("):len(k)-1], 0
+		for i := 0; i < len(in); i++ {
+			switch in[i] {
+			case '(', '[':
+				depth++
+			case ')', ']':
+				depth--
+			case ',':
+				if depth == 0 {
+					return in[:i], in[i+1:], true
+				}
+			}
+		}
+		return "", "", false
+	}
 	lessThan := func(rel Rel, isA, isB func(string) bool) bool {
 		if rel.Op == "<" && isA(rel.L) && isB(rel.R) {
 			return true
+		}
+		// 0 < cmp.Compare(b, a), 1 <= cmp.Compare(b, a): a < b;  cmp.Compare(a, b) < 0, <= -1: a < b
+		if (rel.Op == "<" && rel.L == "0") || (rel.Op == "<=" && rel.L == "1") {
+			if x, y, ok := splitCompare(rel.R); ok && isB(x) && isA(y) {
+				return true
+			}
+		}
+		if (rel.Op == "<" && rel.R == "0") || (rel.Op == "<=" && rel.R == "-1") {
+			if x, y, ok := splitCompare(rel.L); ok && isA(x) && isB(y) {
+				return true
+			}
 		}
 		// 0 < (b-a), 1 <= (b-a)
 		if (rel.Op == "<" && rel.L == "0") || (rel.Op == "<=" && rel.L == "1") {
